@@ -413,3 +413,83 @@ Proof. eexists. split; [vm_compute; reflexivity | reflexivity]. Qed.
 Example C20_ungroup_nonvacuous :
   ungroup [f2; f1; f2; f1] [f1; f2; f3; d 4616189618054758400] = [f3; f1; d 4616189618054758400; f2].
 Proof. vm_compute. reflexivity. Qed.
+
+(* ---- 9. THE CODE TIE.  coq/gen/Relabel_gen.v is rewritten from /repo/sandbox/grist/relabeling.py by harness/relabel2v.py
+   on every run (get_range, _adj_bisect_key_left, _adj_get_key, count_range, _adjust_range, _adjust_all,
+   _find_sparse_enough_range with its two thresholds, prep_inserts_at_index, prepare_inserts).  Each generated function
+   equals the hand-written model function for ALL arguments; an edit of the Python source that changes what is computed
+   makes the corresponding proof below fail (or leaves the translated subset: TieBroken). *)
+Require Import GristGen.Relabel_gen Grist.Proofs.Relabel_bridge.
+
+Theorem C20_bridge_get_range : forall s e n, gen_get_range s e n = get_range s e n.
+Proof. exact gen_get_range_eq. Qed.
+Theorem C20_bridge_adj_bisect_key_left : forall orig w key,
+  gen_adj_bisect_key_left orig w key = adj_bisect_key_left orig w key.
+Proof. exact gen_adj_bisect_key_left_eq. Qed.
+Theorem C20_bridge_adj_get_key : forall orig w index, gen_adj_get_key orig w index = adj_get_key orig w index.
+Proof. exact gen_adj_get_key_eq. Qed.
+Theorem C20_bridge_count_range : forall orig w b e, gen_count_range orig w b e = count_range orig w b e.
+Proof. exact gen_count_range_eq. Qed.
+Theorem C20_bridge_adjust_range : forall orig w b e, gen_adjust_range orig w b e = adjust_range orig w b e.
+Proof. exact gen_adjust_range_eq. Qed.
+Theorem C20_bridge_adjust_all : forall orig w, gen_adjust_all orig w = adjust_all orig w.
+Proof. exact gen_adjust_all_eq. Qed.
+Theorem C20_bridge_find_sparse_enough_range : forall orig w b e,
+  gen_find_sparse_enough_range orig w b e = find_sparse_enough_range orig w b e.
+Proof. exact gen_find_sparse_enough_range_eq. Qed.
+Theorem C20_bridge_prep_inserts_at_index : forall orig w index count,
+  gen_prep_inserts_at_index orig w index count = prep_inserts_at_index orig w index count.
+Proof. exact gen_prep_inserts_at_index_eq. Qed.
+Theorem C20_bridge_prepare_inserts : forall orig keys, gen_prepare_inserts orig keys = prepare_inserts_model orig keys.
+Proof. exact gen_prepare_inserts_eq. Qed.
+Theorem C20_bridge_prepare_inserts_chain : forall orig keys,
+  gen_prepare_inserts_code orig keys = prepare_inserts_model orig keys.
+Proof. exact gen_prepare_inserts_code_eq. Qed.
+
+(* the main theorems, restated about the GENERATED prepare_inserts *)
+Theorem C20_code_total_one_gap_partial : forall orig keys (g : nat),
+  Pre orig keys -> Forall wf_fl orig ->
+  Forall (fun x => exists u, x = FFin false u /\ 0 < u < 2 ^ 2086) orig -> StronglySorted Flt orig ->
+  lenZ orig + lenZ keys < 2 ^ 20 -> keys <> [] ->
+  (forall k, In k keys -> bkl orig k = Z.of_nat g) -> (g < length orig)%nat ->
+  exists adj ins, gen_prepare_inserts orig keys = Ok (adj, ins) /\ Spec orig keys adj ins.
+Proof. intros. rewrite gen_prepare_inserts_eq. eapply one_gap_total; eassumption. Qed.
+
+Theorem C20_code_total_no_renumbering_partial : forall orig keys,
+  Pre orig keys -> Forall wf_fl orig -> lenZ keys + 1 < 2 ^ 53 -> plain_path orig keys = true ->
+  gen_prepare_inserts orig keys = Ok ([], ungroup keys (plain_result orig keys)) /\
+  Spec orig keys [] (ungroup keys (plain_result orig keys)).
+Proof. intros. rewrite gen_prepare_inserts_eq. apply total_plain; assumption. Qed.
+
+Theorem C20_code_total_append_partial : forall orig keys b,
+  Pre orig keys -> keys <> [] -> 0 <= b -> b + Z.of_nat (length keys) + 1 < 2 ^ 53 ->
+  last orig fzero = fint b ->
+  (forall x k, In x orig -> In k keys -> flt x k = true) ->
+  let news := map (fun k => fint (b + k)) (zrange 1 (Z.of_nat (length keys) + 1)) in
+  gen_prepare_inserts orig keys = Ok ([], ungroup keys news) /\ Spec orig keys [] (ungroup keys news).
+Proof. intros. rewrite gen_prepare_inserts_eq. apply total_append; assumption. Qed.
+
+Theorem C20_code_total_renumber_front_partial : forall orig keys x0 rest,
+  Pre orig keys -> keys <> [] -> orig = x0 :: rest ->
+  (forall k, In k keys -> flt x0 k = false) ->
+  (fle x0 fzero = true \/ x0 = FInf false) -> flt fneginf x0 = true ->
+  Z.of_nat (length orig + length keys) + 1 < 2 ^ 53 ->
+  let c := length keys in
+  let adj := map (fun j => (Z.of_nat j, fint (Z.of_nat (1 + c + j)))) (seq 0 (length orig)) in
+  let news := map (fun j => fint (Z.of_nat j)) (seq 1 c) in
+  gen_prepare_inserts orig keys = Ok (adj, ungroup keys news) /\ Spec orig keys adj (ungroup keys news).
+Proof.
+  intros orig keys x0 rest HPre Hk Ho Hfirst Hinv Hnn Hsmall. rewrite gen_prepare_inserts_eq.
+  exact (total_renumber_front orig keys HPre Hk x0 rest Ho Hfirst Hinv Hnn Hsmall).
+Qed.
+
+Theorem C20_code_partial_correctness_one_gap_partial : forall (orig keys : list fl) (g : nat),
+  Pre orig keys -> Forall wf_fl orig ->
+  Forall (fun x => exists u, x = FFin false u /\ 0 < u < 2 ^ 2086) orig -> StronglySorted Flt orig ->
+  lenZ orig + lenZ keys + 1 < 2 ^ 53 -> keys <> [] ->
+  (forall k, In k keys -> bkl orig k = Z.of_nat g) ->
+  flt (group_begin orig (Z.of_nat g)) fzero || fle (group_end orig (Z.of_nat g) (Z.of_nat (length keys))) fzero ||
+    is_inf (fmax (group_begin orig (Z.of_nat g)) (group_end orig (Z.of_nat g) (Z.of_nat (length keys)))) = false ->
+  flt (group_begin orig (Z.of_nat g)) (group_end orig (Z.of_nat g) (Z.of_nat (length keys))) = true ->
+  forall adj ins, gen_prepare_inserts_code orig keys = Ok (adj, ins) -> Spec orig keys adj ins.
+Proof. intros until ins. rewrite gen_prepare_inserts_code_eq. eapply single_gap_correct; eassumption. Qed.
